@@ -20,6 +20,14 @@ CLAIMED = {
         note="Does not decide that the filters' slice arithmetic is right for every template. " + TRUST,
         design_ref="DESIGN.md §3 C10",
     ),
+    "C11": dict(
+        technique="static analysis: codec error-handler pairing of reader/writer open() calls, CFG dominance of the rewrite by the changed flag, single-normalisation count on the reader-to-templater path, def-use chain of the encoding",
+        text="Decides the I/O envelope: the decode error handler used to read a linted file and the encode handler used to write it form a lossless pair; "
+        "the file is rewritten only if fix_string reports a change (computed by comparing fixed and original source); newlines are normalised exactly once "
+        "on the way in and not translated on the way out; the write encoding is the read encoding along the whole chain loader -> RenderedFile -> LintedFile -> writer.",
+        note="Does not decide that unpatched regions are copied verbatim for every patch set (C30 covers the wiring). Known finding: errors='backslashreplace' on read. " + TRUST,
+        design_ref="DESIGN.md §3 C11",
+    ),
     "C13": dict(
         technique="static analysis: must-guard (dominance of tree adoption by the validity component) and def-use/typestate of the validation request through apply_fixes' recursion",
         text="Decides that the fix loop only adopts a tree whose apply_fixes validity component was true, that every structure-changing edit kind and "
@@ -53,6 +61,15 @@ CLAIMED = {
         note="Does not decide the 'exactly when' direction for every input/config combination; user errors swallowed by the parallel runner's funnel are C24's R24d. " + TRUST,
         design_ref="DESIGN.md §3 C22",
     ),
+    "C26": dict(
+        technique="static analysis: typestate over the CFG of the file-replacing function (found by role), exception-cleanup shape, who-may-write table over every write-capable call in src/ and plugins/",
+        text="Decides the order and ownership of filesystem calls on the write path: temp file created in the target directory with delete=False, "
+        "write -> flush -> fsync inside the with, chmod on the temp, rename after close onto the output path, nothing touches the destination afterwards; "
+        "all inside a try whose BaseException handler removes the temp and re-raises; encoding/newline/mode fidelity; with a suffix the original is only stat'ed; "
+        "and no other function in the tree has a write-capable call outside the reviewed table.",
+        note="Assumes POSIX rename atomicity and that NamedTemporaryFile(dir=d) creates in d. " + TRUST,
+        design_ref="DESIGN.md §3 C26",
+    ),
     "C30": dict(
         technique="static analysis: must-guard / def-use wiring checks on merge_source_patches, the slicer and the builder (CFG dominance, sorted() provenance)",
         text="Decides the wiring that makes overlapping or repeated application impossible: a patch joins the merged list only after the duplicate test "
@@ -76,6 +93,14 @@ CLAIMED = {
         "ignore tests, that specs are matched relative to their own directory, and that no working directory is frozen at import time.",
         note="Does not decide pathspec's gitignore semantics or os.walk. " + TRUST,
         design_ref="DESIGN.md §3 C25",
+    ),
+    "C34": dict(
+        technique="static analysis: decorator coverage over the templater class hierarchy (core + plugins), CFG dominance of the read by the size test, handler accounting / may-raise escape analysis for SQLFluffSkipFile, exit-path guards",
+        text="Decides the skip protocol end to end: every process/process_with_variants of every templater carries large_file_check; the byte-size test and its raise "
+        "dominate the read; every SQLFluffSkipFile handler on the lint path counts the skip into files_skipped or re-raises and produces no lint result; a skip cannot "
+        "escape lint_paths/lint_string_wrapped/parse_path; both exit computations consult files_skipped and large_file_skip_fail.",
+        note="Known finding: Linter.render_string swallows the character-limit skip (two keys, one root cause). " + TRUST,
+        design_ref="DESIGN.md §3 C34",
     ),
 }
 
